@@ -169,7 +169,8 @@ class MPos(object):
 
 
 class MPortfolio(object):
-    def __init__(self):
+    def __init__(self, clock=0):
+        self.clock = clock    # index of the portfolio's own clock (can run ahead of the broker's)
         self.cash = Fraction(0)
         self.pos = {}
         self.pending = []     # (asset, qty)
@@ -254,6 +255,8 @@ class BrokerMachine(object):
                 expect_exc = KeyError
             elif a > self.master:
                 expect_exc = ValueError
+            elif self.clock < self.pfs[ev[1]].clock:
+                expect_exc = ValueError        # the portfolio refuses a timestamp earlier than its clock
         elif kind == 'pf_wd':
             a = F(ev[2])
             if a < 0:
@@ -262,9 +265,25 @@ class BrokerMachine(object):
                 expect_exc = KeyError
             elif a > self.pfs[ev[1]].cash:
                 expect_exc = ValueError
+            elif self.clock < self.pfs[ev[1]].clock:
+                expect_exc = ValueError
+        elif kind == 'tick':
+            if any(ev[1] < p.clock for p in self.pfs.values()):
+                expect_exc = ValueError        # a clock update earlier than a portfolio clock is refused
+        elif kind == 'pf_direct_sub':
+            if ev[1] not in self.pfs:
+                raise HarnessError('pf_direct_sub on unknown portfolio in alphabet')
+            if F(ev[2]) < 0 or ev[3] < self.pfs[ev[1]].clock:
+                expect_exc = ValueError
         elif kind == 'submit':
             if ev[1] not in self.pfs:
                 expect_exc = KeyError
+        before = None
+        if check and expect_exc is not None:
+            try:
+                before = self._plain(self.observe())
+            except Exception:  # noqa
+                before = None
         # ---- implementation
         got_exc = None
         try:
@@ -291,6 +310,8 @@ class BrokerMachine(object):
                 b.update(INSTANTS[ev[1]])
             elif kind == 'mark':
                 b.portfolios[ev[1]].update_market_value_of_asset(ev[2], float(ev[3]), self.now())
+            elif kind == 'pf_direct_sub':
+                b.portfolios[ev[1]].subscribe_funds(INSTANTS[ev[3]], float(ev[2]))
             else:
                 raise HarnessError('unknown event %r' % (ev,))
         except HarnessError:
@@ -308,6 +329,15 @@ class BrokerMachine(object):
         elif got_exc is not None:
             fails.append(fail('C15.spurious_refusal', {'event': ev, 'got': repr(got_exc)},
                               'valid-path:%s:%s' % (kind, type(got_exc).__name__)))
+        if before is not None and got_exc is not None:
+            try:
+                after = self._plain(self.observe())
+            except Exception:  # noqa
+                after = None
+            if after != before:
+                changed = sorted(k for k in set(before) | set(after or {}) if (after or {}).get(k) != before.get(k))
+                fails.append(fail('C15.state_changed', {'event': ev, 'error': repr(got_exc), 'changed': changed},
+                                  'valid-path:%s:%s' % (kind, ','.join(sorted(set(c.split('.')[-1] for c in changed))))))
         # ---- model transition (only for accepted requests)
         if expect_exc is None:
             fails.extend(self._model_apply(ev, got_exc))
@@ -327,18 +357,27 @@ class BrokerMachine(object):
             self.master -= F(ev[1])
             self.net_external -= F(ev[1])
         elif kind == 'create':
-            self.pfs[ev[1]] = MPortfolio()
+            self.pfs[ev[1]] = MPortfolio(self.clock)
+        elif kind == 'pf_direct_sub':
+            p = self.pfs[ev[1]]
+            a = F(ev[2])
+            p.cash += a
+            p.clock = ev[3]
+            self.net_external += a          # money that enters the portfolio directly, not through the master
+            p.hist.append(('subscription', ev[3], Fraction(0), a, p.cash))
         elif kind == 'pf_sub':
             p = self.pfs[ev[1]]
             a = F(ev[2])
             self.master -= a
             p.cash += a
+            p.clock = self.clock
             p.hist.append(('subscription', self.clock, Fraction(0), a, p.cash))
         elif kind == 'pf_wd':
             p = self.pfs[ev[1]]
             a = F(ev[2])
             self.master += a
             p.cash -= a
+            p.clock = self.clock
             p.hist.append(('withdrawal', self.clock, a, Fraction(0), p.cash))
         elif kind == 'submit':
             self.pfs[ev[1]].pending.append((ev[2], int(ev[3]), 'o%d' % self.submitted))
@@ -419,6 +458,7 @@ class BrokerMachine(object):
         # ---- ledger follows the fills as recorded (C01 / C02 are relative to them)
         for pid, t in actual:
             p = self.pfs[pid]
+            p.clock = j
             price, qty, comm = Fx(t.price), Fraction(int(t.quantity)), Fx(t.commission)
             cost = price * qty + comm
             p.cash -= cost
@@ -456,6 +496,17 @@ class BrokerMachine(object):
                 'hist': list(b.portfolios[pid].history),
             }
         return o
+
+    @staticmethod
+    def _plain(o):
+        """observation -> flat dict of comparable values (for exact before/after comparison)"""
+        out = {'master': o['master']}
+        for pid, po in o['pf'].items():
+            out['%s.cash' % pid] = po['cash']
+            out['%s.holdings' % pid] = repr(sorted((a, sorted(r.items())) for a, r in po['dict'].items()))
+            out['%s.pending' % pid] = repr(po['pending'])
+            out['%s.history' % pid] = repr([(str(h.dt), h.type, h.debit, h.credit, h.balance) for h in po['hist']])
+        return out
 
     def compare(self, ev):
         """All post-state clauses of C01, C02, C04 against the ledger."""
@@ -592,7 +643,7 @@ class BrokerMachine(object):
                 vals = tuple(sorted((k, round(float(v), 7)) for k, v in vars(ps).items()
                                     if isinstance(v, (int, float, np.floating, np.integer))))
                 pos.append((asset, vals))
-            parts.append((pid, round(float(port.cash), 7), tuple(sorted(pos)),
+            parts.append((pid, p.clock, str(getattr(port, 'current_dt', '')), round(float(port.cash), 7), tuple(sorted(pos)),
                           tuple((a, q) for a, q, _ in self.pending_impl(pid)),
                           str(p.cash), tuple(sorted((a, mp.qty, str(mp.last)) for a, mp in p.pos.items())),
                           tuple((a, q) for a, q, _ in p.pending)))
@@ -612,6 +663,16 @@ def build(fee, hist, check_last=False):
             # a prefix that already failed is never extended by the search; on replay report it
             fails = f
             break
+        else:
+            # every intermediate state is READ through the public getters, exactly as it was when
+            # it was the last state of a shorter history (users read equity / holdings all the time;
+            # a getter that caches or otherwise changes state must show up, and replays must take
+            # the same observation sequence as the exploration did)
+            try:
+                m.observe()
+                m.broker.get_account_total_equity()
+            except Exception:  # noqa
+                pass
     return m, fails
 
 
@@ -650,8 +711,7 @@ class BrokerSpec(object):
         return key, own, tags
 
     def rebuild_key(self, hist):
-        m, _ = build(self.fee, hist, check_last=False)
-        return m.canon()
+        return self._eval(hist)[1]
 
     def expand(self, hist):
         m0, _ = build(self.fee, hist, check_last=False)
